@@ -101,7 +101,7 @@ META = dict(
         "solver's bvudiv/bvurem (used by the spec on magnitudes) = mathematical truncating division",
         "paper composition argument of DESIGN.md 2.1: per-instruction contracts + slot discipline give the property for all programs",
     ],
-    assumptions=[
+    assumptions=["E/S emitter contracts: array.c's growth step enters through the contract stub of harness/e_expr.c (discharged on the real array.c by job A.ensure_capacity.4, realloc/calloc being CBMC's library models); stack heights <= 2^24, label stacks <= 2^16; the string builder is the ghost recorder (its real implementation is under contract in C10); operand-stack entries hold valid value types (validated module)", 
         "C compilers translate well-defined C correctly",
         "program shapes: one probe per integer opcode in 3 stack contexts (enumerated), all operand values symbolic",
     ],
